@@ -269,7 +269,7 @@ func (r *router) routeRequest(ctx context.Context, ch chan rrErr, urlMatch *urlM
 	}
 
 	recompression := util.Recompression{Add: util.CompressionTypeNone, Remove: util.CompressionTypeNone}
-	if requestsResult.recompression && canTransform(mainResp.Header.Get("cache-control")) {
+	if requestsResult.recompression && canTransform(strings.Join(mainResp.Header.Values("cache-control"), ", ")) {
 		recompression = util.GetRecompression(req.Header.Get("Accept-Encoding"), mainResp.Header.Get("Content-Encoding"), mainResp.Header.Get("Content-Type"))
 	}
 
